@@ -52,7 +52,7 @@ ASSUMPTIONS = ['the underlying sinks obey the environment contract (Idle until t
                'C16_same_key is stated over the explicit holder set of Model/Shared.v; weak-reference timing of CPython is trusted']
 
 MANIFEST = {
-    'text': ('Theorems C16_at_most_one, C16_share, C16_share_requests, C16_replace, C16_refcount, C16_refcount_holders, C16_same_key hold for every '
+    'text': ('Theorems C16_at_most_one, C16_share, C16_share_requests, C16_replace, C16_pool_holders, C16_refcount, C16_refcount_holders, C16_same_key hold for every '
              'label sequence (requests, pool opens/closes, late start of the greenlet pool.Open() spawns, open completions, faults, '
              'any wake-up order of blocked requests; '
              'Open/Close by any holders; Create/DropHolder) of the Gallina transcriptions of SingletonPoolSink, RefCountedSink and '
@@ -845,6 +845,8 @@ def _mon_single(case, obs):
   is_req = set()
   ntask = 0
   prev = ''
+  holders = 0          # pool.Open() calls minus pool.Close() calls so far
+  sane = True          # no Close() without a matching earlier Open() so far (then the count means "holders alive")
   for i, (lab, stp) in enumerate(zip(labels, steps)):
     cur = stp['sinks']
     live_before = [s for s, c in enumerate(prev) if c != 'C']
@@ -858,6 +860,17 @@ def _mon_single(case, obs):
         is_req.add(ntask)
       me = ntask
       ntask += 1
+    # the shared connection is not closed while a holder that opened and has not closed is alive
+    if lab[0] == 'openpool':
+      holders += 1
+    elif lab[0] == 'close':
+      holders -= 1
+      if holders < 0:
+        sane = False
+    for e in evs:
+      if e[0] == 'closeu' and sane and holders > 0:
+        v.append(('closed-while-held', 'step %d %s: connection %d closed by the pool while %d holder(s) that opened and have not closed are alive' %
+                  (i, lab, e[1], holders)))
     # at most one underlying connection at a time
     for e in creates:
       if e[2] > 0:
